@@ -179,7 +179,7 @@ def run(ck: Check):
         cases.append({"id": cid, "k": len(cols), "P1": P[0], "P2": P[1]})
         meta[cid] = (job, o, cols)
     if not cases:
-        raise Machinery("no case recorded")
+        raise Machinery("no case recorded; first implementation error: %s" % (ck.impl_error_sample,))
     path = os.path.join(ck.work, "cases.json")
     json.dump(cases, open(path, "w"))
     res = ck.tlc("PmappingJoin", "PmappingJoin.cfg", env={"CASES_FILE": path}, coverage=False, workers=1, timeout=2400)
@@ -265,7 +265,7 @@ def capacity_part(ck):
         cases.append({"id": cid, "world": world, "sh": sh, "P1": P[0], "P2": P[1]})
         meta[cid] = (job, o)
     if not cases:
-        raise Machinery("capacity part: no case recorded")
+        raise Machinery("capacity part: no case recorded; first implementation error: %s" % (ck.impl_error_sample,))
     path = os.path.join(ck.work, "join_cases.json")
     json.dump(cases, open(path, "w"))
     res = ck.tlc("FusedNest", "FusedNest_join.cfg", env={"JOIN_FILE": path, "CASES_FILE": path}, coverage=False,
@@ -308,14 +308,23 @@ def general_part(ck):
     rng = random.Random(ck.seed * 19 + 4242)
     d = os.path.join(ck.work, "gen")
     specs = []
-    for i in range(2 if not thorough else 8):
-        a, w, world = c06.chain_spec(rng, 2, glb_choices=(256, 512), bound_choices=(2, 4))
-        if i % 2 == 0:
-            # a long shared rank (m) against short ones: iteration counts of different fused loops differ
-            import re
-            mm = rng.choice([8, 16])
-            w = re.sub(r"m: 0 <= m < \d+", "m: 0 <= m < %d" % mm, w)
-            world["bound"]["m"] = mm
+    import re
+    forced = os.environ.get("C13_GENERAL_SPECS")     # debugging aid: "m,n0,n1,n2,glb;..."
+    shapes = []
+    if forced:
+        shapes = [tuple(int(x) for x in f.split(",")) for f in forced.split(";")]
+    else:
+        # a long shared rank (m) against short ones: the iteration counts of different fused loops differ, so pairing
+        # the loops of the two sides in the wrong order (loop-permutation matching) changes which rows are joined
+        shapes.append((16, 4, 4, 4, 256))
+        for i in range(1 if not thorough else 7):
+            shapes.append((rng.choice([4, 8, 16]), rng.choice([2, 4]), rng.choice([2, 4]), rng.choice([2, 4]),
+                           rng.choice([256, 512])))
+    for mm, n0, n1, n2, glb in shapes:
+        a, w, world = c06.chain_spec(rng, 2, glb_choices=(glb,), bound_choices=(2, 4))
+        for name, val in (("m", mm), ("n0", n0), ("n1", n1), ("n2", n2)):
+            w = re.sub(r"%s: 0 <= %s < \d+" % (name, name), "%s: 0 <= %s < %d" % (name, name, val), w)
+            world["bound"][name] = val
         specs.append((a, w, world))
     jobs = [(a, w, ("ENERGY", "LATENCY", "RESOURCE_USAGE"), d) for a, w, world in specs]
     with ProcessPoolExecutor(4) as ex:
@@ -344,7 +353,7 @@ def general_part(ck):
         cases.append({"id": cid, "world": world, "sh": sh, "P1": P[0], "P2": P[1], "usagemems": ["GLB"]})
         meta[cid] = (job, o, world)
     if not cases:
-        raise Machinery("general part: no case recorded")
+        raise Machinery("general part: no case recorded; first implementation error: %s" % (ck.impl_error_sample,))
     path = os.path.join(ck.work, "joinG_cases.json")
     json.dump(cases, open(path, "w"))
     res = ck.tlc("FusedNest", "FusedNest_joinG.cfg", env={"JOIN_FILE": path, "CASES_FILE": path}, coverage=False,
